@@ -22,7 +22,7 @@ META = {
                   "codecs.codec / graph.static_order (routine and graph caches)", "typelib.py.inspection.* (per-predicate caches)",
                   "Delayed*._resolved", "typelib.ctx.TypeContext.__missing__ (alias memo)", "typelib.api.encode/decode/marshal/unmarshal"],
     "bounds": {
-        "quick": "all sequences of length <= 3 over an alphabet of 18 operation instances (14 fixed + 4 seed-rotated from 30): "
+        "quick": "all sequences of length <= 3 over an alphabet of 23 operation instances (19 fixed + 4 seed-rotated from 30): "
                  "marshal / unmarshal / encode / decode / strload / isoformat on pools of equal-but-distinct operands (both member orders "
                  "of one union, equal instants with different offsets, 1 / 1.0 / True, the same text as str / bytes), build-routine ops, "
                  "deep-mutate the previous result, deep-mutate the previous input, clear caches",
@@ -124,6 +124,11 @@ def _ops():
         op("unmarshal(list[int|str],['abc','5'])", "union_order", lambda: ["abc", "5"], lambda x: typelib.unmarshal(list[int | str], x)),
         op("marshal(Doc)", "plain", lambda: M.Doc("a", 7), lambda x: typelib.marshal(x)),
         op("unmarshal(Doc,dict)", "plain", lambda: {"name": "a", "_rev": "7"}, lambda x: typelib.unmarshal(M.Doc, x)),
+        op("marshal(Order)", "plain", lambda: M.Order(2, 5), lambda x: typelib.marshal(x)),
+        op("build(unmarshaller(Invoice))", "build", lambda: None, lambda x: type(typelib.unmarshaller(M.Invoice)).__name__),
+        op("marshal(WithMeta)", "plain", lambda: M.WithMeta("n", {"k": 1}), lambda x: typelib.marshal(x)),
+        op("marshal(dict,t=dict)", "plain", lambda: {"k": 1}, lambda x: typelib.marshal(x, t=dict)),
+        op("unmarshal(OptRec,nested)", "plain", lambda: {"k": {"k": None}}, lambda x: typelib.unmarshal(M.OptRec, x)),
     ]
     pool = [
         op("load(b'[1, 2]')", "text", lambda: b"[1, 2]", lambda x: serdes.load(x)),
